@@ -191,6 +191,17 @@ def run_config(res, n, d, fc, sc, ks, queries, stats):
         if keys != [k]:
             res.violation("reader-misses-sample" if got == [exp] else "writer-reader-disagree",
                           "read(k, k) does not return the written sample k", inp, [k], keys)
+        if t % 3 == 1:
+            # the forward-fill path looks for the same sample in the same file (it must not depend on a time computed in
+            # floating point from the sample index)
+            res.count("point-read:ffill")
+            try:
+                keysf = [int(x) for x in rd.read(k, k, method="ffill").keys()]
+            except Exception as e:  # noqa
+                keysf = repr(e)[:120]
+            if keysf != [k]:
+                res.violation("ffill-reader-misses-sample", "read(k, k, method='ffill') does not return the written sample k",
+                              inp, [k], keysf)
         if rd_early is not None and t % 3 == 0:
             res.count("point-read:reader-opened-on-the-empty-channel")
             try:
